@@ -218,6 +218,7 @@ if __name__ == "__main__":
         "the channel capacity is a parameter of the model (theorems hold for every capacity); the harness reports cap() of the real channel and the acceptance check uses it",
         "connectedness(p) is the function of the registered open conns that swarm.connectednessUnlocked computes (Connected if a non-limited open conn, else Limited if any open conn); IsClosed()-but-still-registered conns are not modelled",
         "swarm level (SwModel.v): conns are named in the order Swarm.addConn is called and admitted in that order; Conn.Close is only called on admitted conns; a transport conn is closed only through Conn.Close / the rejection path of addConn (no remote close), so IsClosed() implies removed from the table; the atomic steps of addConn / doClose / Swarm.close are the ones listed at the top of SwModel.v; conformance of kind-8 traces to SwModel is not checked by acceptance (monitor only) - the tie is the emitter-level acceptance plus the proved refinement swarm LTS -> emitter LTS",
+        "stream level (StModel.v): AcceptStream hands out inbound streams only while the loop spawned by c.start() runs; the stream goroutine holds one Swarm ref until addStream returned, a registered stream one until it is closed / reset, doClose resets every registered stream before it spawns the notification goroutine; addStream succeeds only before the transport Close begins and fails only after doClose nil-ed the stream table; the resource manager never refuses an inbound stream; a ConnsToPeer read is one atomic step (conns.RLock) and does not overlap Swarm.close's nil-ing section",
         "whole-swarm runs over TCP (kind 7: several notifiees, inbound streams) are judged by their own monitor only",
     ]
     standard_flow(ctx, dict(
@@ -242,7 +243,11 @@ if __name__ == "__main__":
              "relayed+limited, relayed+UNLIMITED, direct-but-limited), a gateable recording event emitter (stalled subscriber), a "
              "Notifiee with gates, transport Close that can block; in a synctest bubble with forced schedules (all schedules of the "
              "class pairs and of slow-close configurations, Swarm.Close with a backlog of events of 2-6 peers, TWO overlapping Swarm.Close "
-             "calls with the first parked behind a gated callback / subscriber / transport Close, random configurations) "
+             "calls with the first parked behind a gated callback / subscriber / transport Close, random configurations; INBOUND STREAMS the remote "
+             "opens at any moment - in particular while the Connected handler of the conn is held on its gate - accepted by the real AcceptStream "
+             "loop and given to a recording stream handler that resets them or leaves them to doClose, all schedules of 1-conn and budgeted "
+             "schedules of 2-conn configurations with Conn.Close / Swarm.Close / Connected closing the conn; a ConnsToPeer READ of every conn "
+             "before every driver stimulus, judged against the notifications seen so far) "
              "and, under the real scheduler, addConn stalled right after the insert into conns.m (the harness holds "
              "s.directConnNotifs) racing Swarm.Close / Conn.Close. "
              "WHOLE-SWARM runs (kind 7, monitor only, real scheduler): a real Swarm with a TCP listener, two recording Notifiees "
